@@ -831,6 +831,17 @@ def c12(rng, count, exhaustive_len=3):
         if rng.random() < 0.05: argv.append(rng.choice(["--fallback-oob", "--fallback-oob=", "-f", "--bogus", "-x", "-d"]))
         rng.shuffle(argv) if rng.random() < 0.1 else None
         out.append(Case(argv, rng.choice(stdin_pool)))
+    # "time and memory do not grow with the numeric value of an index": indexes of every width in well-formed
+    # requests on every path (ascending lists for -M and the forward line reader, any order elsewhere), on inputs
+    # with several parts, so that the index meets the running part number in whatever arithmetic compares them
+    bigs = ["46341", "65536", "1073741824", "2147483647", "-46341", "-65536", "-1073741824", "-2147483647", "-2147483648"]
+    for big in bigs:
+        pos = not big.startswith("-")
+        shapes = [big, "1," + big, "2:" + big if pos else big + ":-1", "1,2," + big + "=F", "x{" + big + "}y", big + ":" if pos else ":" + big]
+        for sh_ in shapes:
+            for ctx in (["-d", "-", "-f", sh_], ["-d", "-", "-f", sh_, "-M", "1"], ["-d", "--", "-f", sh_], ["-d", "-", "-f", sh_, "--json"] if "{" not in sh_ else ["-d", "-", "-f", sh_, "-m"],
+                        ["-l", sh_], ["-l", sh_, "-m"], ["-c", sh_], ["-b", sh_], ["-d", "-", "-f", sh_, "-m"], ["-e", "-", "-f", sh_]):
+                out.append(Case(ctx + (["--fallback-oob", "G"] if rng.random() < 0.5 else []), rng.choice([b"a-b-c\nd-e-f\ng\nh-i\n", b"a-b-c-d-e", b"l1\nl2\nl3\nl4\n"])))
     # regexes that are fine (or not) on their own but fragile once the program embeds them in a larger
     # pattern, compiles a variant of them, or repeats them: verbose-mode comments, flags, nesting close to
     # the parser's limit, counted repetitions close to the size limit, empty-matching patterns
